@@ -1884,3 +1884,210 @@ func (r *scopeRegistry) reportAndPrune(report func(*scope)) {
 	}
 }
 """)
+
+# ---------------------------------------------------------------- C16 wire primitives (vendored protocols)
+TH = "thirdparty/github.com/apache/thrift/lib/go/thrift/"
+M("c16-binary-i32-little", "C16", TH + "binary_protocol.go",
+  "	binary.BigEndian.PutUint32(v, uint32(value))", "	binary.LittleEndian.PutUint32(v, uint32(value))", expect="O5 wire-primitives")
+M("c16-binary-readi16-width", "C16", TH + "binary_protocol.go",
+  """	buf := p.buffer[0:2]
+	err = p.readAll(buf)
+	value = int16(binary.BigEndian.Uint16(buf))""", """	buf := p.buffer[0:4]
+	err = p.readAll(buf)
+	value = int16(binary.BigEndian.Uint32(buf))""", expect="O5 wire-primitives")
+M("c16-binary-readdouble-little", "C16", TH + "binary_protocol.go",
+  "	value = math.Float64frombits(binary.BigEndian.Uint64(buf))", "	value = math.Float64frombits(binary.LittleEndian.Uint64(buf))", expect="O5 wire-primitives")
+M("c16-compact-i64-varint32", "C16", TH + "compact_protocol.go",
+  "	_, err := p.writeVarint64(p.int64ToZigzag(value))", "	_, err := p.writeVarint32(int32(p.int64ToZigzag(value)))", expect="O5 wire-primitives")
+M("c16-compact-i64-zigzag32", "C16", TH + "compact_protocol.go",
+  "	_, err := p.writeVarint64(p.int64ToZigzag(value))", "	_, err := p.writeVarint64(int64(p.int32ToZigzag(int32(value))))", expect="O5 wire-primitives")
+M("c16-compact-readi32-no-unzigzag", "C16", TH + "compact_protocol.go",
+  "	value = p.zigzagToInt32(v)\n	return value, nil", "	value = v\n	return value, nil", expect="O5 wire-primitives")
+M("c16-compact-readi64-through-32", "C16", TH + "compact_protocol.go",
+  """	v, e := p.readVarint64()
+	if e != nil {
+		return 0, NewTProtocolException(e)
+	}
+	value = p.zigzagToInt64(v)""", """	v32, e := p.readVarint32()
+	v := int64(v32)
+	if e != nil {
+		return 0, NewTProtocolException(e)
+	}
+	value = p.zigzagToInt64(v)""", expect="O5 wire-primitives")
+M("c16-compact-double-big", "C16", TH + "compact_protocol.go",
+  "	binary.LittleEndian.PutUint64(buf, math.Float64bits(value))\n	_, err := p.trans.Write(buf)", "	binary.BigEndian.PutUint64(buf, math.Float64bits(value))\n	_, err := p.trans.Write(buf)", expect="O5 wire-primitives")
+M("c16-compact-string-len-zigzag", "C16", TH + "compact_protocol.go",
+  """func (p *TCompactProtocol) WriteString(value string) error {
+	_, e := p.writeVarint32(int32(len(value)))""", """func (p *TCompactProtocol) WriteString(value string) error {
+	_, e := p.writeVarint32(p.int32ToZigzag(int32(len(value))))""", expect="O5 wire-primitives")
+M("c16-zigzag-shift-30", "C16", TH + "compact_protocol.go",
+  "	return (n << 1) ^ (n >> 31)", "	return (n << 1) ^ (n >> 30)", expect="O6 zigzag")
+M("c16-zigzag-dec-signed-shift", "C16", TH + "compact_protocol.go",
+  """func (p *TCompactProtocol) zigzagToInt64(n int64) int64 {
+	u := uint64(n)
+	return int64(u>>1) ^ -(n & 1)""", """func (p *TCompactProtocol) zigzagToInt64(n int64) int64 {
+	return (n >> 1) ^ -(n & 1)""", expect="O6 zigzag")
+M("c16-varint-write-mask", "C16", TH + "compact_protocol.go",
+  """			varint64out[idx] = byte((n & 0x7F) | 0x80)""", """			varint64out[idx] = byte((n & 0xFF) | 0x80)""", expect="O6 varint")
+M("c16-varint-read-shift-8", "C16", TH + "compact_protocol.go",
+  "		shift += 7", "		shift += 8", expect="O6 varint")
+M("c16-varint-write-signed-shift", "C16", TH + "compact_protocol.go",
+  """			u := uint32(n)
+			n = int32(u >> 7)""", """			n = n >> 7""", expect="O6 varint")
+M("c16-typecode-swap", "C16", TH + "compact_protocol.go",
+  "		I32:    COMPACT_I32,\n		I64:    COMPACT_I64,", "		I32:    COMPACT_I64,\n		I64:    COMPACT_I32,", expect="O7 type-codes")
+M("c16-typecode-reader-case", "C16", TH + "compact_protocol.go",
+  "	case COMPACT_SET:\n		return SET, nil", "	case COMPACT_SET:\n		return LIST, nil", expect="O7 type-codes")
+M("c16-writebinary-skips-payload", "C16", TH + "compact_protocol.go",
+  """	if len(bin) > 0 {
+		_, e = p.trans.Write(bin)
+		return NewTProtocolException(e)
+	}
+	return nil""", """	if len(bin) > 1 {
+		_, e = p.trans.Write(bin)
+		return NewTProtocolException(e)
+	}
+	return nil""", expect="O8 payload-whole")
+M("c16-binary-writestring-sliced", "C16", TH + "binary_protocol.go",
+  "	_, err := p.trans.WriteString(value)\n	return NewTProtocolException(err)", "	_, err := p.trans.WriteString(value[:len(value)/2*2])\n	return NewTProtocolException(err)", expect="O8 payload-whole")
+M("c16-read-transport-appends", "C16", "m3/customtransports/buffered_read_transport.go",
+  "	p.readBuf = bytes.NewBuffer(buf)", "	p.readBuf.Write(buf)", expect="O8 read-transport")
+B("c16-benign-read-transport-reset", "C16", "m3/customtransports/buffered_read_transport.go",
+  "	p.readBuf = bytes.NewBuffer(buf)", "	p.readBuf.Reset()\n	p.readBuf.Write(buf)")
+B("c16-benign-compact-string-bounded-copy", "C16", TH + "compact_protocol.go",
+  """func (p *TCompactProtocol) WriteString(value string) error {
+	_, e := p.writeVarint32(int32(len(value)))""", """func (p *TCompactProtocol) WriteString(value string) error {
+	if n := binary.PutUvarint(p.buffer[:], uint64(len(value))); n+len(value) <= len(p.buffer) {
+		copy(p.buffer[n:], value)
+		_, e := p.trans.Write(p.buffer[:n+len(value)])
+		return NewTProtocolException(e)
+	}
+	_, e := p.writeVarint32(int32(len(value)))""")
+B("c16-benign-binary-i16-hoisted", "C16", TH + "binary_protocol.go",
+  """	v := p.buffer[0:2]
+	binary.BigEndian.PutUint16(v, uint16(value))
+	_, e := p.writer.Write(v)""", """	order := binary.BigEndian
+	v := p.buffer[:2]
+	order.PutUint16(v, uint16(value))
+	_, e := p.writer.Write(v)""")
+
+# ---------------------------------------------------------------- rules added after round 2 of the seeded changes
+M("c09-keybuf-global", "C09", "scope_registry.go",
+  "	h.SetSeed(r.seed)\n	_, _ = h.Write(buf)", "	h.SetSeed(r.seed)\n	_, _ = h.Write(buf)\n	lastKeyBuf = buf",
+  expect="O4 private-key-buffer", more=[("scope_registry.go", "type scopeRegistry struct {", "var lastKeyBuf []byte\n\ntype scopeRegistry struct {")])
+M("c09-keybuf-from-field", "C09", "scope_registry.go",
+  "		buf = keyForPrefixedStringMapsAsKey(make([]byte, 0, 256), prefix, parent.tags, tags)",
+  "		buf = keyForPrefixedStringMapsAsKey(r.scratch[:0], prefix, parent.tags, tags)",
+  expect="O4 private-key-buffer", more=[("scope_registry.go", "type scopeRegistry struct {", "type scopeRegistry struct {\n	scratch []byte")])
+B("c09-benign-keybuf-array", "C09", "scope_registry.go",
+  "		buf = keyForPrefixedStringMapsAsKey(make([]byte, 0, 256), prefix, parent.tags, tags)",
+  "		stack [512]byte\n		buf   = keyForPrefixedStringMapsAsKey(stack[:0], prefix, parent.tags, tags)")
+M("c09-loser-returns-own-counter", "C09", "scope.go",
+  """	s.cm.Lock()
+	defer s.cm.Unlock()
+
+	if c, ok := s.counters[name]; ok {
+		return c
+	}
+
+	var cachedCounter CachedCount
+	if s.cachedReporter != nil {
+		cachedCounter = s.cachedReporter.AllocateCounter(
+			s.fullyQualifiedName(name),
+			s.tags,
+		)
+	}
+
+	c := newCounter(cachedCounter)
+	s.counters[name] = c
+	s.countersSlice = append(s.countersSlice, c)
+
+	return c""", """	s.cm.Lock()
+	defer s.cm.Unlock()
+
+	var cachedCounter CachedCount
+	_, ok := s.counters[name]
+	if !ok && s.cachedReporter != nil {
+		cachedCounter = s.cachedReporter.AllocateCounter(
+			s.fullyQualifiedName(name),
+			s.tags,
+		)
+	}
+
+	c := newCounter(cachedCounter)
+	if !ok {
+		s.counters[name] = c
+		s.countersSlice = append(s.countersSlice, c)
+	}
+
+	return c""", expect=":returned")
+M("c09-lock-leak-on-hit", "C09", "scope.go",
+  """	s.tm.Lock()
+	defer s.tm.Unlock()
+
+	if t, ok := s.timers[name]; ok {
+		return t
+	}
+""", """	s.tm.Lock()
+
+	if t, ok := s.timers[name]; ok {
+		return t
+	}
+	defer s.tm.Unlock()
+""", expect="O3 lock-pairing")
+M("c14-flush-waits-on-channel", "C14", "m3/reporter.go",
+  "	r.reportInternalMetrics()\n	r.metCh <- sizedMetric{}", "	r.reportInternalMetrics()\n	r.metCh <- sizedMetric{}\n	<-r.donech", expect="O1 no-foreign-wait")
+M("c14-report-sleeps-in-flight", "C14", "m3/reporter.go",
+  "	r.reportInternalMetrics()\n	r.metCh <- sizedMetric{}", "	r.reportInternalMetrics()\n	r.metCh <- sizedMetric{}\n	r.wg.Wait()", expect="O1 no-foreign-wait")
+M("c05-root-in-first-shard-only", "C05", "scope_registry.go",
+  "		r.subscopes[i].s[scopeRegistryKey(root.prefix, root.tags)] = root\n	}", "	}\n	r.subscopes[0].s[scopeRegistryKey(root.prefix, root.tags)] = root", expect="O1 root-in-every-shard")
+M("c11-root-in-even-shards", "C11", "scope_registry.go",
+  "		r.subscopes[i].s[scopeRegistryKey(root.prefix, root.tags)] = root\n	}", "		if i%2 == 0 {\n			r.subscopes[i].s[scopeRegistryKey(root.prefix, root.tags)] = root\n		}\n	}", expect="O1 root-in-every-shard")
+B("c05-benign-root-bucket-local", "C05", "scope_registry.go",
+  """		r.subscopes[i] = &scopeBucket{
+			s: make(map[string]*scope),
+		}
+		r.subscopes[i].s[scopeRegistryKey(root.prefix, root.tags)] = root""", """		b := &scopeBucket{
+			s: make(map[string]*scope),
+		}
+		b.s[scopeRegistryKey(root.prefix, root.tags)] = root
+		r.subscopes[i] = b""")
+M("c15-multi-close-drops-list", "C15", "m3/thriftudp/multitransport.go",
+  """	for _, trans := range p.transports {
+		if err := trans.Close(); err != nil {
+			return err
+		}
+	}
+	return nil""", """	for _, trans := range p.transports {
+		if err := trans.Close(); err != nil {
+			return err
+		}
+	}
+	p.transports = p.transports[:0]
+	return nil""", expect="O5 fixed-destinations")
+M("c19-report-timer-early-return", "C19", "multi/reporter.go",
+  """func (m multiMetric) ReportTimer(interval time.Duration) {
+""", """func (m multiMetric) ReportTimer(interval time.Duration) {
+	if interval == 0 {
+		return
+	}
+""", expect="O1 forwarder")
+M("c19-children-reassigned", "C19", "multi/reporter.go",
+  """func (r *multi) Flush() {
+""", """func (r *multi) Flush() {
+	r.reporters = r.reporters[:len(r.reporters):len(r.reporters)]
+""", expect="O1 fixed-children")
+M("c17-timer-seconds-method", "C17", "prometheus/reporter.go",
+  "	m.histogram.Observe(float64(interval) / float64(time.Second))", "	m.histogram.Observe(interval.Seconds())", expect="O4 observe-seconds")
+M("c17-typed-nil-handle", "C17", "prometheus/reporter.go",
+  """	if err != nil {
+		r.onRegisterError(err)
+		return noopMetric{}
+	}
+	return &cachedMetric{counter: counterVec.With(tags)}""", """	var m *cachedMetric
+	if err != nil {
+		r.onRegisterError(err)
+	} else {
+		m = &cachedMetric{counter: counterVec.With(tags)}
+	}
+	return m""", expect="O2 allocator")
